@@ -1,6 +1,6 @@
 (* C12 -- signature update over any history of updates.  upd_nth i v l replaces position i; run_updates folds
    update_signature over a list of (position, new value) pairs, stating the current value as the old one. *)
-From ZK Require Import Laws BaseLemmas ModelLemmas SignProofs UpdateProofs.
+From ZK Require Import Laws BaseLemmas ModelLemmas SignProofs UpdateProofs Separation Binding.
 
 (* invariant over histories (induction on the update list): whenever the run returns, the current signature verifies for
    the current vector, with the exponent of the original signature *)
@@ -108,3 +108,32 @@ Check (C12_update_wrong_old :
              nth (N.to_nat i) (skipn 1 (g_values E g)) (g1_zero (PR E)) <> g1_zero (PR E)) ->
   verify E s' (sk_to_pk E sk) (Some (upd_nth (N.to_nat i) v msgs)) header = Err).
 Print Assumptions C12_update_wrong_old.
+
+(* the current signature does not verify for an earlier, different vector -- unless that acceptance constructs a collision of
+   the message hash or a non-trivial discrete-log relation among the generators (reduction, instance of C02's verify_binding) *)
+Theorem C12_update_old_vector_reduces :
+  forall (E : env) (LW : Laws E) s pk cur old header,
+  suite_ok E ->
+  verify E s pk (Some cur) header = Ok tt ->
+  verify E s pk (Some old) header = Ok tt ->
+  length cur = length old -> cur <> old ->
+  (len (option_default [] header) <= usize_max)%N ->
+  (exists i, (i < length cur)%nat /\ nth i cur [] <> nth i old [] /\ hm E (nth i cur []) = hm E (nth i old [])) \/
+  (exists Q1 H dm dm',
+     DLRelation E LW (Q1 :: H) (fsub (SO E) dm dm' :: zip_sub E (map (hm E) cur) (map (hm E) old)) \/
+     Collision (fun x => f_of_okm (SO E) (expand E x (c_api_id (cs E) ++ c_h2s (cs E)) 48))
+               (dom_input E pk Q1 H header (c_api_id (cs E))) (dom_input E pk Q1 H header (c_api_id (cs E)))).
+Proof. exact update_old_vector_reduces. Qed.
+Check (C12_update_old_vector_reduces :
+  forall (E : env) (LW : Laws E) s pk cur old header,
+  suite_ok E ->
+  verify E s pk (Some cur) header = Ok tt ->
+  verify E s pk (Some old) header = Ok tt ->
+  length cur = length old -> cur <> old ->
+  (len (option_default [] header) <= usize_max)%N ->
+  (exists i, (i < length cur)%nat /\ nth i cur [] <> nth i old [] /\ hm E (nth i cur []) = hm E (nth i old [])) \/
+  (exists Q1 H dm dm',
+     DLRelation E LW (Q1 :: H) (fsub (SO E) dm dm' :: zip_sub E (map (hm E) cur) (map (hm E) old)) \/
+     Collision (fun x => f_of_okm (SO E) (expand E x (c_api_id (cs E) ++ c_h2s (cs E)) 48))
+               (dom_input E pk Q1 H header (c_api_id (cs E))) (dom_input E pk Q1 H header (c_api_id (cs E))))).
+Print Assumptions C12_update_old_vector_reduces.
